@@ -148,6 +148,9 @@ def trace_validate(chk, cases, results, work, limit, rnd):
     if not recs:
         raise vf.ToolError('no partition records were written by the driver')
     byname = {json.loads(b)['name']: (i, json.loads(b)) for i, b in enumerate(cases)}
+    # (a case that crashed the driver half-way has records but no verdicts: it is reported as a crash, not here)
+    recs = [r for r in recs if byname[r['id'].split('/')[0]][0] in results and
+            r['sub'] in results[byname[r['id'].split('/')[0]][0]]['info'].get('verdicts', {})]
     # all patterns of canonical tuples (the cache key space) first, then a seeded sample of the
     # re-indexed ones and of the patterns reached through non-canonical tuples
     def is_canon(r):
